@@ -20,10 +20,10 @@ CHECKS = {
    text='proof (partial): identifier legality test = declarative EDIF identifier syntax (iff); lookup-after-rename, case-insensitive identifier lookup, no ghost entry after removal (names and mixed-case identifiers), conflict reported iff another element owns the name (Props/C10.v). The whole-history invariant (tables = children names, lookup = scan) is checked by the NsInv oracle on the implementation and by comparing the manager\'s tables with the model\'s after every call; not yet proved in Coq.',
    design='DESIGN.md 5/C10, 10'),
  'C14': dict(engine='ir', technique='Coq proof (refused call returns the identical state) + model/implementation correspondence + frame oracle',
-   text='proof (partial): for every non-allocating editing call, a refusal (precondition or naming rule) returns exactly the initial state, log included (Props/C14.v: C14_refused_changes_nothing). For compound constructors the statement C14_full is checked by the Frame oracle on the implementation (snapshot of all objects + lookup answers before/after each refused call, nothing refers to half-built objects) and by the correspondence run.',
+   text='proof (full statement on the model): in every state reachable from the empty world, any public editing call that is refused (precondition or naming rule; constructors, compound constructors create_*(name, pins/wires/reference), top_instance = definition and data deletions included) leaves every field of every object allocated before the call unchanged, and the naming policy (Props/C14.v: C14_full, by induction over histories with the invariants Inv, Fresh, FreshD; C14_full_inv from the invariants; C14_refused_changes_nothing: for non-allocating calls the state is identical, log included). Tied to the code by the correspondence run (refused-call variants of every op) and by the Frame oracle on the implementation (snapshot of all objects + lookup answers before/after each refused call, nothing refers to half-built objects).',
    design='DESIGN.md 5/C14, 10'),
- 'C19': dict(engine='ir', technique='Coq proof (no announcement for refused calls) + event-multiset correspondence + shadow-mirror oracle',
-   text='proof (partial): a refused non-allocating call appends nothing to the announcement log (Props/C19.v: C19_no_phantom). The mirror clause is checked on the implementation by a shadow listener that only replays notifications and is compared with the real netlists after every call; the multiset of announcements of every call is compared with the model\'s event log.',
+ 'C19': dict(engine='ir', technique='Coq proof (mirror theorem over all histories; no announcement for refused calls) + event-multiset correspondence + shadow-mirror oracle on the implementation',
+   text='proof (mirror and no-phantom clauses on the model): for every history from the empty world, a listener (coq/theories/IR/Shadow.v: feed) that replays exactly the announcements of each call holds an exact mirror of containment, wire membership, instance references, top instances and element data (Props/C19.v: C19_mirror by induction over histories, C19_mirror_step for one call from the invariants Inv and Fresh - every public call, accepted or refused, including implicit disconnections of port/pin removal and reference = None and the re-keying of re-pointing); a refused non-allocating call appends nothing to the log (C19_no_phantom). Announcements carry no positions: containers and wires are mirrored as sets. Tied to the code by comparing the multiset of real announcements of every call with the model log and by a shadow listener on the implementation (with random partial listeners registered/removed). "Registering or removing listeners never changes what the API does" is checked on the implementation only.',
    design='DESIGN.md 5/C19, 10'),
 }
 
